@@ -370,6 +370,12 @@ class Pipeline(T2Case):
             ctx.prove("C04/consumed==len(T)", ctx.eq(consumed, len(T)), info=f"len(T)={len(T)}")
         if not (self.want("C01") or self.want("C02") or self.want("C04")):
             return
+        from dissect.cstruct.types.structure import UnionMetaType
+
+        if isinstance(T, UnionMetaType) and T.dynamic:
+            # dumping (and modifying) a dynamic union is explicitly unsupported by the library (NotImplementedError):
+            # outside the domain of the dump-side statements
+            return
         # ---- write
         out = SymStream(ctx, SBytes([]), 0, name="out")
         ow = outcome(it, T._write, [out, v])
